@@ -211,6 +211,59 @@ pub fn malformed_range(rng: &mut Rng) -> Vec<u8> {
 /// / replace / duplicate, the inserted material being grammar punctuation, digits, lone
 /// high bytes, or a whole multi-byte UTF-8 character (a `&str` API handed such a value must not
 /// slice inside one). Everything stays within what `HeaderValue::from_bytes` accepts.
+/// How a Range header value stands with RFC 7233's `bytes=` grammar, judged by an independent
+/// recogniser (nothing of the crate's parser): `Outside` = no reading of the grammar accepts it —
+/// another prefix than `bytes=` in any letter case, an element that is no byte-range-spec, or no
+/// element at all; `Strict` = the sender grammar with optional whitespace around commas;
+/// `Lenient` = everything in between, where a recipient may go either way (empty list elements,
+/// `Bytes=`, last < first, numbers beyond 64 bits, whitespace inside an element).
+#[derive(Clone, Copy, Debug, PartialEq, Eq)]
+pub enum RangeGrammar {
+    Strict,
+    Lenient,
+    Outside,
+}
+
+pub fn range_grammar(v: &[u8]) -> RangeGrammar {
+    use RangeGrammar::*;
+    if v.len() < 6 || !v[..6].eq_ignore_ascii_case(b"bytes=") {
+        return Outside;
+    }
+    let mut lenient = &v[..6] != b"bytes=";
+    let is_ows = |c: &u8| *c == b' ' || *c == b'\t';
+    let mut specs = 0;
+    for el in v[6..].split(|c| *c == b',') {
+        let start = el.iter().position(|c| !is_ows(c)).unwrap_or(el.len());
+        let end = el.iter().rposition(|c| !is_ows(c)).map_or(start, |i| i + 1);
+        let t = &el[start..end];
+        if t.is_empty() {
+            lenient = true; // an empty list element
+            continue;
+        }
+        let Some(h) = t.iter().position(|c| *c == b'-') else { return Outside };
+        let (a, b) = (&t[..h], &t[h + 1..]);
+        let digits = |s: &[u8]| s.iter().all(|c| c.is_ascii_digit());
+        if !digits(a) || !digits(b) || (a.is_empty() && b.is_empty()) {
+            // (whitespace inside an element counts as outside: no list rule allows it)
+            return Outside;
+        }
+        let num = |s: &[u8]| -> Option<u64> { std::str::from_utf8(s).ok()?.parse().ok() };
+        if (!a.is_empty() && num(a).is_none()) || (!b.is_empty() && num(b).is_none()) {
+            lenient = true; // beyond 64 bits
+        } else if !a.is_empty() && !b.is_empty() && num(b) < num(a) {
+            lenient = true; // last-byte-pos < first-byte-pos: an invalid spec
+        }
+        specs += 1;
+    }
+    if specs == 0 {
+        Outside
+    } else if lenient {
+        Lenient
+    } else {
+        Strict
+    }
+}
+
 /// Words of the protocol family (codings, units, markers that proxies and caches add or strip):
 /// the dictionary for splicing mutations.
 pub const PROTOCOL_WORDS: [&[u8]; 16] = [
